@@ -73,7 +73,9 @@ fn krylov(t: &mut Toks, cx: &mut Ctx, c09: bool) -> String {
     // ---- C09 oracle: well-posed classes ----
     let near = class.starts_with("near-");
     let class = class.trim_start_matches("near-").to_string();
-    let wellposed = (class == "spd" && true) || (class == "dd" && solver != "cg") || (class == "spd" && solver != "cg");
+    // C09 claims convergence for CG on SPD systems and for BiCG / BiCGSTAB / QMR on strictly diagonally dominant ones
+    // (SPD systems given to the other three are compared with the model only)
+    let wellposed = (class == "spd" && solver == "cg") || (class == "dd" && solver != "cg");
     let degenerate = class.starts_with("exact-") || class.starts_with("zero-");
     if near && c09 && n > 0 {
         // a guess whose true relative residual is a thousand times below the tolerance already solves
@@ -248,7 +250,7 @@ pub fn gen(rng: &mut Rng, tier: Tier, out: &mut Vec<String>) {
     let nsys = if tier == Tier::Quick { 70 } else { 1500 };
     let classes = ["spd", "dd", "nonsym", "indef", "illcond", "singular", "diag"];
     for i in 0..nsys {
-        let n = if i % 7 == 0 { 1 + rng.below(60) } else { 1 + rng.below(14) };
+        let n = if rng.chance(15) { 1 + rng.below(60) } else { 1 + rng.below(14) };   // (drawn independently of the class: every kind reaches order 60)
         let class = classes[i % classes.len()];
         for (k, solver) in SOLVERS.iter().enumerate() {
             let budget = *rng.pick(&[0usize, 1, 2, n, 1000, 1000]);
